@@ -211,7 +211,12 @@ def apply_query(string, query=None, type=None, fields=None):
     # fields updated by Query is OK
     new_string = sid_resolver.dict_to_sid(new_data, _type)
     if new_string:
-        return new_string, _type, new_data
+        # resolving back gives the fields in template order, and checks that the string is canonical
+        __, ordered_data = sid_resolver.sid_to_dict(new_string, _type)
+        if not ordered_data:
+            warning(f'[Sid] After Query apply, Sid "{new_string}" does not resolve back. Query will not be applied.')
+            return "{}?{}".format(string, query), type, fields
+        return new_string, _type, ordered_data
     else:
         raise SpilException(
             f"Sid: [{string}?{query}] Query was correctly applied, but unable to resolve back to Sid"
